@@ -98,16 +98,64 @@ def elemsStr (ob : ObsBoard) : List ((Bool × String) × String) :=
   (zipIds ob.board.g.objs ob.objIds).map (fun (o, i) => ((true, o.label), i)) ++
   (zipIds ob.board.g.edges ob.edgeIds).map (fun (e, i) => ((false, e.label), i))
 
-def specfalse (sig detail : String) : Verdict := .specfalse sig detail
-def describe (op : Op) : String :=
+/-- an object written without a label shows its own name as label, so the label follows a rename ("m4" → "m4 2").
+    For matching across an edit such labels are replaced by `dflt:<name without a trailing " <n>">`. -/
+def stripNumSuffix (s : String) : String :=
+  match s.splitOn " " with
+  | [] => s
+  | parts =>
+    match parts.getLast? with
+    | some l => if parts.length > 1 && l.toNat?.isSome then " ".intercalate parts.dropLast else s
+    | none => s
+
+def normLabel (o : Obj) : Obj :=
+  if some o.label == o.path.getLast? then { o with label := "dflt:" ++ stripNumSuffix o.label } else o
+
+def normLabels (d : Diagram) : Diagram := { d with objs := d.objs.map normLabel }
+
+def normBoard (ob : ObsBoard) : ObsBoard := { ob with board := { ob.board with g := normLabels ob.board.g } }
+
+/-- the moved/renamed object itself, when it carries a default label, is the one default-labelled object of the result
+    without a counterpart before: tag both so that they match -/
+def tagMoved (b a : Diagram) (x : Path) : Diagram × Diagram :=
+  match b.findObj x with
+  | some xo =>
+    if xo.label.startsWith "dflt:" then
+      let cands := a.objs.filter fun o => o.label.startsWith "dflt:" && (objByLabel b o.label).isNone
+      match cands with
+      | [c] =>
+        if (objByLabel a xo.label).isNone then
+          ({ b with objs := b.objs.map fun o => if samePath o.path x then { o with label := "moved!" } else o },
+           { a with objs := a.objs.map fun o => if o.path == c.path then { o with label := "moved!" } else o })
+        else (b, a)
+      | _ => (b, a)
+    else (b, a)
+  | none => (b, a)
+
+/-- labels are unique once default labels are left out (two unlabeled objects may legitimately end up with the same
+    normalised default label; such steps are skipped, not flagged) -/
+def dupOnlyDefault (d : Diagram) : Bool :=
+  ({ d with objs := d.objs.filter fun o => !o.label.startsWith "dflt:" } : Diagram).uniqueLabels
+
+/-- verdicts are one line each -/
+def oneLine (s : String) : String := (s.replace "\n" "⏎").replace "\r" " "
+
+def specfalse (sig detail : String) : Verdict := .specfalse sig (oneLine detail)
+def describe (op : Op) : String := oneLine <|
   s!"{op.kind} board={op.board} key={op.key}" ++
     (if op.kind == "move" then s!" newKey={op.newKey} desc={op.desc}" else "") ++
     (if op.kind == "rename" then s!" newName={op.newName}" else "") ++
     (if op.kind == "set" then s!" attr={op.attr} value={op.value} tag={op.tag}" else "") ++
     (if op.kind == "delete" && op.attr != "" then s!" attr={op.attr}" else "")
 
+/-- the signature names EVERY failing clause (joined by "+"): a known defect class is recorded with the set of clauses
+    it is known to break, so a change that breaks a further clause on the same inputs is still reported -/
+def failing (cs : List Clause) : List String := (cs.filter fun c => !c.holds).map (·.name)
+
 def report (op : Op) (cs : List Clause) : Option Verdict :=
-  (firstFailing cs).map fun c => specfalse c (describe op)
+  match failing cs with
+  | [] => none
+  | names => some (specfalse ("+".intercalate names) (describe op))
 
 
 def sameBoards (xs ys : List ObsBoard) : Bool :=
@@ -139,6 +187,10 @@ def handleC36 (op : Op) (o : Json) : Except String Verdict := do
 
 def diagramsEqual (x y : Diagram) : Bool := sameDiagram x y && sameDiagram y x
 
+def relabelNew (b a d : Diagram) : Diagram :=
+  { d with objs := d.objs.map (fun o =>
+      if b.hasObj o.path then o else { o with label := ((a.findObj o.path).map (·.label)).getD o.label }) }
+
 def handleC37 (op : Op) (o : Json) : Except String Verdict := do
   let oc ← getStr o "outcome"
   if oc == "panic" || oc == "fatal" then
@@ -160,11 +212,14 @@ def handleC37 (op : Op) (o : Json) : Except String Verdict := do
     match tgt with
     | .obj p =>
       match Spec.createObj b p with
-      | some d => if !diagramsEqual d a then return .mismatch "create-object-refinement" (describe op)
+      | some d =>
+        -- the default label is the RAW name; paths carry the d2-syntax (possibly quoted) name: take it from the result
+        let d : Diagram := relabelNew b a d
+        if !diagramsEqual d a then return .mismatch "create-object-refinement" (describe op)
       | none => return .mismatch "create-object-spec-refuses" (describe op)
     | .edge s t sa da _ =>
       match Spec.createEdge b s t sa da with
-      | some d => if !diagramsEqual d a then return .mismatch "create-edge-refinement" (describe op)
+      | some d => if !diagramsEqual (relabelNew b a d) a then return .mismatch "create-edge-refinement" (describe op)
       | none => return .mismatch "create-edge-spec-refuses" (describe op)
     | .none => pure ()
     return .ok
@@ -205,8 +260,8 @@ def handleC38 (op : Op) (o : Json) : Except String Verdict := do
     -- the oracle accepted an edit on a board that does not exist (e.g. a move of a key onto itself): nothing may change
     return (if sameBoards before after then .ok else specfalse "edit-on-missing-board-changed-graph" (describe op))
   let some ab := findBoard after op.board | return specfalse "target-board-lost" (describe op)
-  let b := bb.board.g
-  let a := ab.board.g
+  let b := normLabels bb.board.g
+  let a := normLabels ab.board.g
   if op.attr != "" then
     let tgt := resolve bb op.target
     -- `deleteReserved` implements style.*, near, tooltip, icon, width, height, left, top, link (and the fields of
@@ -217,7 +272,7 @@ def handleC38 (op : Op) (o : Json) : Except String Verdict := do
       | _ => op.attr == "label"
     if let some v := report op (deleteAttrClauses b a tgt op.attr (!unsupported)) then return v
     if unsupported then
-      if let some c := firstFailing (deleteAttrClauses b a tgt op.attr true) then
+      if let c :: _ := failing (deleteAttrClauses b a tgt op.attr true) then
         return specfalse s!"{c}-unsupported-attribute" (describe op)
     return .ok
   match resolve bb op.key with
@@ -226,14 +281,18 @@ def handleC38 (op : Op) (o : Json) : Except String Verdict := do
     return .ok
   | .obj x =>
     if !b.uniqueLabels then return .ok
-    if !a.uniqueLabels then return specfalse "labels-duplicated" (describe op)
+    if !a.uniqueLabels then return (if dupOnlyDefault a then .ok else specfalse "labels-duplicated" (describe op))
     if let some v := report op (deleteObjClauses b a x) then return v
     if !diagramsEqual (Spec.deleteObj b x (observedRen b a x)) a then return .mismatch "delete-object-refinement" (describe op)
     return .ok
   | .edge s t sa da i =>
-    if !b.uniqueLabels then return .ok
-    if !a.uniqueLabels then return specfalse "labels-duplicated" (describe op)
     let some e := b.findEdge s t sa da i | return .bad "edge vanished"
+    if !b.uniqueLabels then
+      -- elements cannot be matched by label (e.g. a chain `a -> b -> c: hi`): the delete of a connection leaves no
+      -- choice, so the result must be exactly the abstract one
+      if !diagramsEqual (Spec.deleteEdge b e) a then return specfalse "deledge-result-not-exact" (describe op)
+      return .ok
+    if !a.uniqueLabels then return (if dupOnlyDefault a then .ok else specfalse "labels-duplicated" (describe op))
     if let some v := report op (deleteEdgeClauses b a e) then return v
     if !diagramsEqual (Spec.deleteEdge b e) a then return .mismatch "delete-edge-refinement" (describe op)
     return .ok
@@ -249,12 +308,13 @@ def handleC39 (op : Op) (o : Json) : Except String Verdict := do
     -- the oracle accepted an edit on a board that does not exist (e.g. a move of a key onto itself): nothing may change
     return (if sameBoards before after then .ok else specfalse "edit-on-missing-board-changed-graph" (describe op))
   let some ab := findBoard after op.board | return specfalse "target-board-lost" (describe op)
-  let b := bb.board.g
-  let a := ab.board.g
+  let b0 := normLabels bb.board.g
+  let a0 := normLabels ab.board.g
   match resolve bb op.key with
   | .obj x =>
+    let (b, a) := tagMoved b0 a0 x
     if !b.uniqueLabels then return .ok
-    if !a.uniqueLabels then return specfalse "labels-duplicated" (describe op)
+    if !a.uniqueLabels then return (if dupOnlyDefault a then .ok else specfalse "labels-duplicated" (describe op))
     let dest : Path := if op.kind == "rename" then x.dropLast ++ [op.newName] else op.newKeyPath.getD []
     let cross := !samePath dest.dropLast x.dropLast
     let withDesc := op.kind == "rename" || op.desc || !cross
@@ -271,6 +331,8 @@ def handleC39 (op : Op) (o : Json) : Except String Verdict := do
     return .ok
   | .edge s t sa da i =>
     -- renaming a connection changes its arrows only
+    let b := b0
+    let a := a0
     if !b.uniqueLabels || !a.uniqueLabels then return .ok
     let some e := b.findEdge s t sa da i | return .bad "edge vanished"
     let cs : List Clause :=
@@ -283,7 +345,7 @@ def handleC39 (op : Op) (o : Json) : Except String Verdict := do
     if let some v := report op cs then return v
     return .ok
   | .none =>
-    if !diagramsEqual b a then return specfalse "move-nonexistent-changed-graph" (describe op)
+    if !diagramsEqual b0 a0 then return specfalse "move-nonexistent-changed-graph" (describe op)
     return .ok
 
 def decDeltas (d : Json) : Except String (List (String × String)) := do
@@ -311,6 +373,13 @@ def handleC40 (j : Json) (op : Op) (o : Json) : Except String Verdict := do
     -- the oracle accepted an edit on a board that does not exist (e.g. a move of a key onto itself): nothing may change
     return (if sameBoards before after then .ok else specfalse "edit-on-missing-board-changed-graph" (describe op))
   let some ab := findBoard after op.board | return specfalse "target-board-lost" (describe op)
+  -- labels normalised for matching (default labels follow renames; the moved object itself is tagged)
+  let (gb, ga) := match op.kind, resolve bb op.key with
+    | "rename", .obj x => tagMoved (normLabels bb.board.g) (normLabels ab.board.g) x
+    | "move", .obj x => tagMoved (normLabels bb.board.g) (normLabels ab.board.g) x
+    | _, _ => (normLabels bb.board.g, normLabels ab.board.g)
+  let bb : ObsBoard := { bb with board := { bb.board with g := gb } }
+  let ab : ObsBoard := { ab with board := { ab.board with g := ga } }
   if !bb.board.g.uniqueLabels || !ab.board.g.uniqueLabels then return .ok
   let dm ← decDeltas d
   match firstDisagreement (elemsStr bb) (elemsStr ab) dm with
@@ -394,9 +463,30 @@ def handleImport (i o : Json) : Except String Verdict := do
     if !sameBoards before after then return specfalse "import-rename-changes-diagram" what
   return .ok
 
+/-- C36, chained histories: every successful step's text compiles to the returned diagram (compared through the
+    hash of the canonical boards, computed in Go) and is formatter-stable -/
+def handleHist (i o : Json) : Except String Verdict := do
+  if let some why := optStr o "fatal" then return specfalse "history-fatal" why
+  let ops ← getArr i "ops"
+  let steps ← getArr o "steps"
+  for st in steps.toList do
+    let n ← getNat st "i"
+    let opj := ops.getD n Json.null
+    let what := s!"step {n} of {ops.size}: {opj.compress}"
+    let oc ← getStr st "outcome"
+    if oc == "panic" then return specfalse "history-panic" s!"{what}: {(optStr st "err").getD ""}"
+    if oc == "ok" then
+      if let some e := optStr st "recompileErr" then return specfalse "history-new-text-does-not-compile" s!"{what}: {e}"
+      if (optStr st "afterSig") != (optStr st "recompiledSig") then
+        return specfalse "history-returned-graph-differs-from-its-text" what
+      if let some e := optStr st "reparseErr" then return specfalse "history-new-text-does-not-parse" s!"{what}: {e}"
+      if (optStr st "newText") != (optStr st "fmtText") then return specfalse "history-formatter-changes-new-text" what
+  return .ok
+
 def handleEdit (prop : String) (j : Json) : Except String Verdict := do
   let k ← getStr j "k"
   if k == "evolve" then return .skip "evolve"
+  if k == "hist" then return ← handleHist (← getObj j "in") (← getObj j "out")
   if k == "import" then return ← handleImport (← getObj j "in") (← getObj j "out")
   let i ← getObj j "in"
   let o ← getObj j "out"
